@@ -13,14 +13,16 @@ LEVEL = "exploration"
 RULE = (
     "Cases are (base, reference) pairs: an exhaustive cross product of base shapes (scheme x authority kind x path shape incl. escaped "
     "characters x query x fragment) with all references of <= 4 segments over {., .., '', a, %2E} x rooted/rootless x 3 query x 3 fragment "
-    "variants, plus network-path, same-scheme, other-scheme and empty references, plus seeded random pairs with hostile texts.  "
+    "variants, plus network-path, same-scheme, other-scheme and empty references, plus an ENCODED kernel (bases and/or references taken verbatim "
+    "with encoded=True, so dot segments are still in the base path / the reference's network path when join() runs: 270 bases x 22 references x "
+    "both reference modes), plus seeded random pairs with hostile texts.  "
     "Signature = (base shape class, reference class, which RFC 5.2.2 branch the reference model took); non-trivial unless the "
     "reference is a single plain segment."
 )
 ASSUMPTIONS = [
     "yarl cannot represent a defined-but-empty query/fragment/authority; empty ones of the reference are read as undefined",
     "an empty path under an authority and '/' are the same path (C10)",
-    "references are produced in auto mode, so their own dot segments under an authority are already removed",
+    "references and bases are produced in auto mode and, in the encoded kernel, verbatim (encoded=True), where their own dot segments are still present when join() runs",
 ]
 
 USES_RELATIVE = set(uses_relative)
@@ -48,12 +50,15 @@ def norm_path(auth, p):
     return "/" if (auth is not None and p == "") else p
 
 
-def check_join(ctx, base_s, ref_s, part, sig_extra=()):
+def check_join(ctx, base_s, ref_s, part, sig_extra=(), benc=False, renc=False):
     from yarl import URL
 
-    base = guarded(URL, base_s)
-    ref = guarded(URL, ref_s)
+    base = guarded(URL, base_s, encoded=benc)
+    ref = guarded(URL, ref_s, encoded=renc)
     case = {"base": base_s, "ref": ref_s}
+    if benc or renc:
+        case.update(benc=benc, renc=renc)
+        sig_extra = sig_extra + ("benc" if benc else "", "renc" if renc else "")
     if is_exc(base) or is_exc(ref):
         ctx.count("input_rejected")
         return
@@ -124,7 +129,7 @@ def bases():
 def run(ctx):
     if ctx.part == "replay":
         c = ctx.params["replay"]["case"]
-        check_join(ctx, c["base"], c["ref"], "replay")
+        check_join(ctx, c["base"], c["ref"], "replay", benc=bool(c.get("benc")), renc=bool(c.get("renc")))
         return
     if ctx.part == "kernel":
         bl = bases()
@@ -153,6 +158,30 @@ def run(ctx):
                 i += 1
                 if ctx.mine(i):
                     check_join(ctx, b, r, "kernel-special")
+        # bases (and references) taken verbatim (encoded=True): their paths may still carry dot segments when join() runs
+        ebases = []
+        for sch in ("http", "file", "git"):
+            for au in ("//h", "//u@h:81", ""):
+                for pth in ("/b/../c/d", "/./a/b", "/a/b/..", "/a/b/.", "/..", "/../a", "/a/./b/", "/a/../", "/.", "/a.b/c.d", "/a/%2E%2E/b", "/a/b/../../../c", "b/../c", "./a", ".."):
+                    if au and not pth.startswith("/"):
+                        continue
+                    for q in ("", "?x=1"):
+                        ebases.append(f"{sch}:{au}{pth}{q}")
+        erefs = ["e", "e/f", "e/", "e?y#s", "http:e", "", "?y", "#s", "/e", "/e/../f", "./e", "../e", "..", ".", "e/./f", "e.f", "//g/a/../b", "//g/.", "//g", "e;p", "%2E%2E/e", "a/b/c/d"]
+        ctx.notes["encoded_bases"] = len(ebases)
+        for b in ebases:
+            for r_ in erefs:
+                i += 1
+                if not ctx.mine(i):
+                    continue
+                check_join(ctx, b, r_, "kernel-enc", benc=True)
+                check_join(ctx, b, r_, "kernel-enc", benc=True, renc=True)
+        for b in bl[:: 7]:
+            for r_ in erefs:
+                i += 1
+                if ctx.mine(i):
+                    check_join(ctx, b, r_, "kernel-enc", renc=True)
+        ctx.sample({"base": "http://h/b/../c/d", "ref": "e", "benc": True, "renc": False})
         ctx.sample({"base": bl[37 % len(bl)], "ref": "../%2E/a?y#s"})
         ctx.sample({"base": "http://h/a%2Fb/c%3Fd", "ref": "g"})
         return
